@@ -26,6 +26,8 @@ type SiteSpec struct {
 	Ordinal int
 	Clause  *Clause
 	Hits    int
+	SetGhost string // `at call f: set $g := expr` (expr may mention res)
+	SetExpr  Expr
 }
 
 type LetDef struct {
@@ -61,6 +63,7 @@ type LockSpec struct {
 	Recv     string
 	Protects []string
 	Invs     []*Clause
+	Assumes  []*Clause // assumed whenever the lock is taken, never proved (listed as assumptions)
 	Strict   bool
 }
 
@@ -128,7 +131,7 @@ type SpecFile struct {
 var itemKeywords = map[string]bool{"ghost": true, "datatype": true, "pure": true, "lock": true, "iface": true, "func": true, "atomic": true, "lemma": true, "axiom": true}
 var subKeywords = map[string]bool{"protects": true, "inv": true, "assigns": true, "held": true, "ensures": true, "requires": true, "safety": true,
 	"monitor": true, "let": true, "loop": true, "at": true, "arith": true, "conv": true, "panics": true, "bytes": true, "inline": true, "modular": true,
-	"discipline": true, "recv": true, "trusted": true, "strict": true, "forall": false, "hyp": true, "concl": true, "vars": true}
+	"discipline": true, "recv": true, "assume": true, "trusted": true, "strict": true, "forall": false, "hyp": true, "concl": true, "vars": true}
 
 func ParseSpecFile(path string) (*SpecFile, error) {
 	data, err := os.ReadFile(path)
@@ -289,6 +292,16 @@ func ParseSpecFile(path string) (*SpecFile, error) {
 			for _, p := range strings.Split(rest, ",") {
 				curLock.Protects = append(curLock.Protects, strings.TrimSpace(p))
 			}
+		case "assume":
+			if curLock == nil {
+				return nil, fail("assume outside lock")
+			}
+			c, err := parseClause(rest, s.no)
+			if err != nil {
+				return nil, fail("%v", err)
+			}
+			curLock.Assumes = append(curLock.Assumes, c)
+			sf.Keywords["assume"]++
 		case "inv":
 			if curLock == nil {
 				return nil, fail("inv outside lock")
@@ -386,7 +399,31 @@ func ParseSpecFile(path string) (*SpecFile, error) {
 			if curFunc == nil {
 				return nil, fail("at outside func")
 			}
-			// at call <callee> [#k]: assert L [props]: e
+			// at call <callee> [#k]: assert L [props]: e      |  at call <callee> [#k]: set $g := e
+			if j := strings.Index(rest, ": set "); j >= 0 {
+				head := strings.TrimSpace(rest[:j])
+				kind := firstWord(head)
+				callee := strings.TrimSpace(head[len(kind):])
+				ord := 0
+				if k := strings.LastIndex(callee, " #"); k >= 0 {
+					if n, err := strconv.Atoi(callee[k+2:]); err == nil {
+						ord = n
+						callee = strings.TrimSpace(callee[:k])
+					}
+				}
+				body := rest[j+len(": set "):]
+				a := strings.Index(body, ":=")
+				if a < 0 {
+					return nil, fail("set $g := e")
+				}
+				ex, err := ParseExpr(body[a+2:])
+				if err != nil {
+					return nil, fail("%v", err)
+				}
+				curFunc.Sites = append(curFunc.Sites, &SiteSpec{Kind: kind, Callee: callee, Ordinal: ord, SetGhost: strings.TrimSpace(body[:a]), SetExpr: ex,
+					Clause: &Clause{Label: "set " + strings.TrimSpace(body[:a]), Line: s.no}})
+				break
+			}
 			i := strings.Index(rest, ": assert ")
 			if i < 0 {
 				return nil, fail("at <kind> <callee>: assert L: e")
